@@ -653,7 +653,15 @@ r_expand(const Expansion &expansion, const vector_string &args,
     }
     if (!node._nested.empty()) {
       string nested_result;
-      if (node._optional && args.size() >= _num_parameters) {
+      // __VA_OPT__ is kept only if the variable argument has any tokens left
+      // after macro replacement; an empty argument counts as none.
+      bool has_va = _variadic_param >= 0 && args.size() > (size_t)_variadic_param + 1;
+      if (!has_va && _variadic_param >= 0 && args.size() > (size_t)_variadic_param) {
+        string va = args[_variadic_param];
+        _parser.expand_manifests(va, expand_undefined, ignores);
+        has_va = va.find_first_not_of(" \t\n") != string::npos;
+      }
+      if (node._optional && has_va) {
         nested_result = r_expand(node._nested, args, expand_undefined, ignores);
       }
       if (node._stringify) {
